@@ -85,6 +85,7 @@ class FnSpec:
         self.combs = []         # (method, opt|res, n): inline that std combinator call with a closure literal into a match
         self.same_as = None     # `file.fns/key`: this (lifted) word carries the contract of that function
         self.noisolation = False  # #[verifier::loop_isolation(false)]: loops see the facts established before them
+        self.stmt = None        # Rstmt: lift the one statement that starts with this text out of function `key` (with armsig)
         self.arm = None         # Rarm: lift the block of this match arm out of function `key`
         self.armsig = None      # .. as a function with this signature
         self.word = None        # lift the closure bound to this word name out of the word table `key`
@@ -147,6 +148,7 @@ def parse_fn_blocks(lines, origin):
                 elif a == 'noisolation': fs.noisolation = True
                 elif a.startswith('word='): fs.word = a[5:].strip('"')
                 elif a.startswith('arm='): fs.arm = a[4:].strip('"')
+                elif a.startswith('stmt='): fs.stmt = a[5:].strip('"')
                 elif a.startswith('armsig='): fs.armsig = a[7:].strip('"')
                 elif a.startswith('same_as='): fs.same_as = a[8:]
                 else: raise AssembleError('%s: bad //@fn option %r' % (fs.origin, a))
@@ -174,11 +176,12 @@ def parse_fn_blocks(lines, origin):
                         raise AssembleError('%s:%d bad //@sub' % (origin, i + 1))
                     (fs.subs if m.group(1) == 'sub' else fs.sigsubs).append((m.group(2), m.group(3).replace('\\n', '\n'), m.group(4).replace('\\n', '\n'), m.group(5)))
                     cur = None
-                elif s.startswith('//@comb '):
+                elif s.startswith('//@comb ') or s.startswith('//@comb? '):
                     a = s.split()
                     if len(a) < 3 or a[2] not in ('opt', 'res'):
                         raise AssembleError('%s:%d bad //@comb (method opt|res [n])' % (origin, i + 1))
-                    fs.combs.append((a[1], a[2], int(a[3]) if len(a) > 3 else 1))
+                    # `//@comb?`: applied when the combinator is there (a body that no longer uses it is rendered as it is)
+                    fs.combs.append((a[1] + ('?' if a[0].endswith('?') else ''), a[2], int(a[3]) if len(a) > 3 else 1))
                     cur = None
                 elif s.startswith('//@entry'):
                     cur = []
@@ -1081,6 +1084,40 @@ def lift_arm(src, loc, arm, armsig, where):
     return fn, src.line_of(base + idx), src.line_of(base + toks[cb][2]), arm + ' => { .. }'
 
 
+def lift_stmt(src, loc, stmt, armsig, where):
+    """Rstmt: one `let NAME = EXPR;` statement of a function whose surroundings are outside the dialect.  The statement
+    that starts with `stmt` (exactly one) becomes `fn SIG { <the statement> Ok(NAME) }`: the variables it reads are the
+    parameters of SIG.  Everything else of the function is dropped.  -> (fn text, line_start, line_end, original head)"""
+    text = src.text
+    body = text[loc['body_open']:loc['end']]
+    base = loc['body_open']
+    hits = [m.start() for m in re.finditer(r'(?m)^[ \t]*' + re.escape(stmt), body)]
+    if len(hits) != 1:
+        raise AssembleError('anchor lost: %s: statement `%s` found %d times' % (where, stmt, len(hits)))
+    idx = hits[0]
+    toks = code_tokens(body)
+    depth = 0
+    end = None
+    for j in range(len(toks)):
+        if toks[j][1] < idx:
+            continue
+        t = body[toks[j][1]:toks[j][2]]
+        if t in ('(', '[', '{'):
+            depth += 1
+        elif t in (')', ']', '}'):
+            depth -= 1
+        elif t == ';' and depth == 0:
+            end = toks[j][2]
+            break
+    if end is None:
+        raise AssembleError('anchor lost: %s: statement `%s` does not end' % (where, stmt))
+    m = re.match(r'\s*let\s+(?:mut\s+)?(\w+)', body[idx:end])
+    if not m:
+        raise AssembleError('%s: Rstmt: `%s` is not a `let NAME = ..;` statement' % (where, stmt))
+    fn = 'fn %s {\n%s\n    Ok(%s)\n}' % (armsig, body[idx:end], m.group(1))
+    return fn, src.line_of(base + idx), src.line_of(base + end), body[idx:end].strip()[:60]
+
+
 def expand_fn(fs, assumed_override=False, notes=None):
     """-> (text, meta)"""
     owner, name = parse_key(fs.key)
@@ -1111,8 +1148,13 @@ def expand_fn(fs, assumed_override=False, notes=None):
         orig, l0, l1, stmt = lift_arm(src, loc, fs.arm, fs.armsig, where0)
         loc = dict(loc, line_start=l0, line_end=l1, attrs='')
         deltas.append(dict(rule='Rarm', original=stmt, rewritten='fn ' + fs.armsig + ' { <const items of the function> <the block of the arm> }'))
+    if fs.stmt is not None:
+        where0 = '%s %s' % (fs.src, fs.key)
+        orig, l0, l1, stmt = lift_stmt(src, loc, fs.stmt, fs.armsig, where0)
+        loc = dict(loc, line_start=l0, line_end=l1, attrs='')
+        deltas.append(dict(rule='Rstmt', original=stmt, rewritten='fn ' + fs.armsig + ' { <that statement> Ok(<its variable>) }'))
     sha = hashlib.sha256(orig.encode()).hexdigest()
-    lifted = fs.word is not None or fs.arm is not None
+    lifted = fs.word is not None or fs.arm is not None or fs.stmt is not None
     body_open = (orig.index('{') if lifted else loc['body_open'] - loc['start'])
     text = orig
     if loc['attrs'].strip():
@@ -1160,7 +1202,14 @@ def expand_fn(fs, assumed_override=False, notes=None):
         if 'Rskip' in fs.rules:
             body = rule_Rskip(body, deltas, where)
         for (cm, ck, cn) in fs.combs:
-            body = rule_Rcomb(body, cm, ck, cn, deltas, where)
+            if cm.endswith('?'):
+                try:
+                    body = rule_Rcomb(body, cm[:-1], ck, cn, deltas, where)
+                except AssembleError as e:
+                    if 'not found' not in str(e):
+                        raise
+            else:
+                body = rule_Rcomb(body, cm, ck, cn, deltas, where)
         for (rule, frm, to, cnt) in fs.subs:
             k = body.count(frm)
             if cnt == '?':
@@ -1354,8 +1403,8 @@ def expand_fn(fs, assumed_override=False, notes=None):
             out = '#[verifier::loop_isolation(false)]\n' + out
     meta = dict(name=fs.key, file=fs.src, lines=[loc['line_start'], loc['line_end']], sha256=sha,
                 mode='assumed' if assumed else 'verified', props=fs.props, deltas=deltas,
-                contract=fs.origin, lost_anchors=lost, vname=('verif_word_' + _mangle(fs.word)) if fs.word is not None else (re.match(r'\s*(\w+)', fs.armsig).group(1) if fs.arm is not None else (fs.rename or name)),
-                owner=(None if (fs.word is not None or fs.arm is not None) else owner))
+                contract=fs.origin, lost_anchors=lost, vname=('verif_word_' + _mangle(fs.word)) if fs.word is not None else (re.match(r'\s*(\w+)', fs.armsig).group(1) if (fs.arm is not None or fs.stmt is not None) else (fs.rename or name)),
+                owner=(None if (fs.word is not None or fs.arm is not None or fs.stmt is not None) else owner))
     return out, meta
 
 
